@@ -263,6 +263,10 @@ pub struct Ctx {
     /// (function, arity) -> (positions of the inputs the code needs concretely, signatures already explored)
     pub sym_seen: std::collections::HashMap<(String, usize), (Vec<u32>, HashSet<Vec<BigRat>>)>,
     pub sym_fns: Vec<SymFn>,
+    /// symbolic mode, property clauses: (name, arity, paths, decisions over all paths, all paths Ok, first failure)
+    pub sym_preds: Vec<(String, usize, usize, usize, bool, String)>,
+    pub sym_pred_seen: std::collections::HashMap<(String, usize), usize>,
+    pub sym_preds_on: bool,
     /// probe mode: run the named functions on the given inputs only (search for a failing input, symgen.py)
     pub probes: Option<std::collections::HashMap<String, Vec<Vec<BigRat>>>>,
     pub probe_done: HashSet<(String, usize)>,
@@ -302,7 +306,7 @@ pub fn rats(xs: &[Xq]) -> Vec<BigRat> {
 
 impl Ctx {
     pub fn new(seed: u64, scale: usize) -> Ctx {
-        Ctx { rng: Rng(seed), seed, scale, cases: vec![], pred_evals: 0, pred_fails: vec![], only: None, sym: false, sym_seen: Default::default(), sym_fns: vec![], probes: None, probe_done: HashSet::new() }
+        Ctx { rng: Rng(seed), seed, scale, cases: vec![], pred_evals: 0, pred_fails: vec![], only: None, sym: false, sym_seen: Default::default(), sym_fns: vec![], sym_preds: vec![], sym_pred_seen: Default::default(), sym_preds_on: false, probes: None, probe_done: HashSet::new() }
     }
 
     /// Run `body` on freshly allocated inputs and record the case.
@@ -312,6 +316,9 @@ impl Ctx {
             if o != f {
                 return;
             }
+        }
+        if self.sym && self.sym_preds_on {
+            return; // C17: only the operator-spelling clauses are evaluated symbolically
         }
         if self.sym {
             let key = (f.to_string(), inp.len());
@@ -387,6 +394,44 @@ impl Ctx {
     /// `body` returns Ok(()) when the clause holds, Err(detail) when it is violated;
     /// a panic inside counts as a violation unless `expect_panic`.
     pub fn pred(&mut self, name: &str, inp: &[BigRat], setup: &dyn Fn(), body: &dyn Fn(&[Xq]) -> Result<(), String>) {
+        if self.sym && self.sym_preds_on && !inp.is_empty() && {
+            // every instance of a clause is evaluated symbolically (the straight-line programs differ from instance to instance)
+            let n = self.sym_pred_seen.entry((name.to_string(), inp.len())).or_insert(0);
+            *n += 1;
+            *n <= 256
+        } {
+            // the clause evaluated on symbolic inputs: when every comparison in it is between literally identical
+            // expressions there is no decision at all and the clause holds for every input
+            let mut script: Vec<bool> = vec![];
+            let (mut paths, mut decisions, mut all_ok, mut first) = (0usize, 0usize, true, String::new());
+            let mut symbolic_work = false; // did the clause compute anything on the symbolic inputs?
+            loop {
+                xq::reset();
+                setup();
+                sym::begin(&script, inp);
+                let xs: Vec<Xq> = (0..inp.len()).map(|i| Xq::input(i as u32)).collect();
+                let res = catch_unwind(AssertUnwindSafe(|| body(&xs)));
+                let st = sym::end();
+                paths += 1;
+                decisions += st.trace.len();
+                symbolic_work |= st.nodes.len() > inp.len();
+                match res {
+                    Ok(Ok(())) => {}
+                    Ok(Err(d)) => { all_ok = false; if first.is_empty() { first = d; } }
+                    Err(e) => { all_ok = false; if first.is_empty() { first = format!("panic: {}", panic_msg(e)); } }
+                }
+                let mut trace = st.trace.clone();
+                while let Some(true) = trace.last() { trace.pop(); }
+                if trace.is_empty() || paths >= 64 { break; }
+                let n = trace.len();
+                trace[n - 1] = true;
+                script = trace;
+            }
+            if symbolic_work {
+                self.sym_preds.push((name.to_string(), inp.len(), paths, decisions, all_ok, first));
+            }
+            return;
+        }
         if self.sym || self.probes.is_some() {
             return;
         }
@@ -649,6 +694,13 @@ pub fn read_probes(path: &str) -> std::collections::HashMap<String, Vec<Vec<BigR
         }
     }
     m
+}
+
+pub fn write_sym_preds(path: &str, ps: &[(String, usize, usize, usize, bool, String)]) {
+    let mut f = std::io::BufWriter::new(std::fs::File::create(path).expect("create sym preds file"));
+    for (n, a, p, d, ok, e) in ps {
+        writeln!(f, "{{\"pred\":{},\"arity\":{},\"paths\":{},\"decisions\":{},\"ok\":{},\"err\":{}}}", js(n), a, p, d, ok, js(e)).unwrap();
+    }
 }
 
 pub fn write_sym(path: &str, fns: &[SymFn]) {
